@@ -1566,4 +1566,140 @@ theorem linv_spin {p : Prog} (f : W → Nat) (n : Nat) (w : W) (h : LInv p w) : 
   spin_inv (exec p) f (LInv p) (fun _ c rest h hc hd => ⟨inv1_pop h.1 c rest hc hd, cinv_pop h.2 h.1 c rest hc hd⟩)
     (fun _ c rest h hc hcr => ⟨inv1_adv h.1 c rest hc hcr, cinv_now h.2 _⟩) n w h
 
+/-! ## the run: from the start of `Spinner.run` to the end of `_clean`'s iterations -/
+
+/-- the state in which `_run_deferred` is called: interrupts scheduled, log fixtures installed, results
+forgotten, timeout call scheduled, `reactor.stop` patched, reactor running -/
+def entryW (p : Prog) : W :=
+  let w := prepare p
+  let w : W := { w with sp := { w.sp with success := none, failure := none } }
+  let w := schedule (w.now + p.timeout) .timeout w
+  { w with stopPatched := true, running := true, crashed := false,
+           sp := { w.sp with tcall := .pending, spinning := true } }
+
+theorem spinPhase_eq (p : Prog) :
+    spinPhase p (prepare p) = spin (exec p) (fun _ => bound p) (bound p + 1) (startSetUp p (entryW p)) := rfl
+
+theorem schedStops_spec : ∀ (stops : List Nat) (w : W),
+    (schedStops stops w).now = w.now ∧ (schedStops stops w).u = w.u ∧ (schedStops stops w).sp = w.sp ∧
+    (schedStops stops w).crashed = w.crashed ∧
+    (∀ c, c ∈ (schedStops stops w).calls ↔ c ∈ w.calls ∨ ∃ s ∈ stops, c = ⟨w.now + s, .user 0 .stop⟩) ∧
+    (SortedQ w.calls → SortedQ (schedStops stops w).calls) ∧
+    (schedStops stops w).calls.length = w.calls.length + stops.length
+  | [], w => by simp [schedStops]
+  | s :: rest, w => by
+      obtain ⟨h1, h2, h3, h4, h5, h6, h7⟩ := schedStops_spec rest (schedule (w.now + s) (.user 0 .stop) w)
+      simp only [schedStops]
+      refine ⟨h1, h2, h3, h4, ?_, ?_, ?_⟩
+      · intro c
+        rw [h5 c]
+        simp only [schedule_calls, mem_insert, schedule_now, List.mem_cons, exists_eq_or_imp]
+        constructor
+        · rintro ((h | h) | h)
+          · exact Or.inr (Or.inl h)
+          · exact Or.inl h
+          · exact Or.inr (Or.inr h)
+        · rintro (h | h | h)
+          · exact Or.inl (Or.inr h)
+          · exact Or.inl (Or.inl h)
+          · exact Or.inr h
+      · intro hs
+        exact h6 (insert_sortedQ _ _ hs (fun ht => by cases ht))
+      · rw [h7]; simp [insert_length]; omega
+
+theorem prepare_spec (p : Prog) :
+    (prepare p).now = 0 ∧ (prepare p).u = { observers := (duringObs p).1 } ∧ (prepare p).sp = {} ∧
+    (prepare p).crashed = false ∧
+    (∀ c, c ∈ (prepare p).calls ↔ ∃ s ∈ p.stops, c = ⟨s, .user 0 .stop⟩) ∧ SortedQ (prepare p).calls ∧
+    (prepare p).calls.length = p.stops.length := by
+  obtain ⟨h1, h2, h3, h4, h5, h6, h7⟩ := schedStops_spec p.stops ({ u := { observers := (duringObs p).1 } } : W)
+  refine ⟨h1, h2, h3, h4, ?_, h6 (by simp [SortedQ]), by rw [prepare]; simpa using h7⟩
+  intro c
+  rw [prepare, h5 c]
+  simp
+
+theorem entry_inv1 (p : Prog) : Inv1 p (entryW p) := by
+  obtain ⟨h1, h2, h3, h4, h5, h6, h7⟩ := prepare_spec p
+  have hcalls : (entryW p).calls = Reactor.insert ⟨p.timeout, .timeout⟩ (prepare p).calls := by
+    simp [entryW, h1]
+  have hnot : ∀ x ∈ (prepare p).calls, x.act.isTimeout = false ∧ isSD x = false := by
+    intro x hx
+    obtain ⟨s, _, rfl⟩ := (h5 x).mp hx
+    exact ⟨rfl, rfl⟩
+  have hf0 : (prepare p).calls.filter (·.act.isTimeout) = [] :=
+    List.filter_eq_nil_iff.mpr (fun x hx => by simp [(hnot x hx).1])
+  refine ⟨?_, ?_, ?_, ?_, ?_, ?_, ?_, ?_, ?_, ?_, ?_, ?_⟩
+  · rw [hcalls]; exact insert_sortedQ _ _ h6 (fun _ x hx => (hnot x hx).2)
+  · intro c _; simp [entryW, h1]
+  · intro c hc ht
+    rw [hcalls] at hc
+    rcases mem_insert.mp hc with rfl | hc
+    · rfl
+    · rw [(hnot c hc).1] at ht; cases ht
+  · rw [hcalls, filter_insert_length, List.filter_cons_of_pos (by rfl), hf0]
+    simp [entryW]
+  · intro _; simp [entryW]
+  · intro h; simp [entryW] at h
+  · intro h; simp [entryW] at h
+  · simp [entryW]
+  · intro _; simp [entryW]
+  · intro s hs
+    left
+    rw [hcalls]
+    exact mem_insert.mpr (Or.inr ((h5 _).mpr ⟨s, hs, rfl⟩))
+  · intro c hc l hcl
+    rw [hcalls] at hc
+    rcases mem_insert.mp hc with rfl | hc
+    · cases hcl
+    · obtain ⟨s, hs, rfl⟩ := (h5 c).mp hc
+      exact hs
+  · intro h; simp [entryW] at h
+
+theorem entry_run (p : Prog) : Run p (entryW p) [] (path p) ∧ (entryW p).u.stack = [] ∧ (entryW p).u.nextCleanup = 0 := by
+  obtain ⟨h1, h2, h3, h4, h5, h6, h7⟩ := prepare_spec p
+  have hu : (entryW p).u = { observers := (duringObs p).1 } := by simp [entryW, h2]
+  have hnow : (entryW p).now = 0 := by simp [entryW, h1]
+  have hsd : sdOf (entryW p).calls = [] := by
+    have : (entryW p).calls = Reactor.insert ⟨p.timeout, .timeout⟩ (prepare p).calls := by simp [entryW, h1]
+    rw [this, sdOf_insert_other _ rfl]
+    apply List.filterMap_eq_nil_iff.mpr
+    intro x hx
+    obtain ⟨s, _, rfl⟩ := (h5 x).mp hx
+    rfl
+  refine ⟨⟨by simp, by simp [hu], by simp [hu, seqOk], by simp [hu, overAt, hnow], hsd, ?_, by simp [hu],
+    by simp [entryW], fun _ => Or.inl rfl, fun h => by simp [entryW] at h⟩, by simp [hu], by simp [hu]⟩
+  rw [hu]
+  exact ⟨by simp [sidesOf], by simp [sidesOf, loggedLeft], by simp [sidesOf], by simp, by simp⟩
+
+/-- a step of the chain never un-crashes the reactor, and crashes it only by recording a result -/
+theorem reach_crashed {k : Nat} {w w' : W} (h : Reach k w w') :
+    (w.crashed = true → w'.crashed = true) ∧ (w'.crashed = true → w.crashed = true ∨ w'.sp.success.isSome = true ∨ w.sp.tcall ≠ .pending) := by
+  induction h with
+  | refl w => exact ⟨id, Or.inl⟩
+  | upd f _ ih => exact ih
+  | sched d a ha _ ih => exact ih
+  | deliv b _ ih =>
+    rename_i k w w' hr
+    refine ⟨fun hc => ih.1 (by simp [deliver, stopReactor_crashed, hc]; split <;> simp [stopReactor_crashed, hc]), ?_⟩
+    intro hc
+    by_cases hp : w.sp.tcall = .pending
+    · right; left
+      -- the result has been recorded; later steps of the chain keep it (no second `deliver` while pending)
+      have hsucc : (deliver (.value b) w).sp.success = some b := by unfold deliver; simp [hp]
+      have htc : (deliver (.value b) w).sp.tcall = .cancelled := by unfold deliver; simp [hp]
+      have keep : ∀ {k : Nat} {w1 w2 : W}, Reach k w1 w2 → w1.sp.success = some b → w1.sp.tcall = .cancelled →
+          w2.sp.success = some b := by
+        intro k w1 w2 hr
+        induction hr with
+        | refl w => exact fun h _ => h
+        | upd f _ ih => exact ih
+        | sched d a ha _ ih => exact ih
+        | deliv b' _ ih =>
+          intro h1 h2
+          rename_i w3 _ _
+          have : deliver (.value b') w3 = stopReactor w3 := deliver_of_not_pending _ _ (by rw [h2]; simp)
+          exact ih (by rw [this]; simpa using h1) (by rw [this]; simpa using h2)
+      rw [keep hr hsucc htc]; rfl
+    · exact Or.inr (Or.inr hp)
+
 end TTV.Props.C14
